@@ -107,6 +107,33 @@ pub fn check_library(lib: &[(String, String)], ext: &str, allow_known: bool) -> 
     None
 }
 
+/// directories and notes whose names are prefixes of one another (`d`, `d2`, `dx`, a root note `d`, the same
+/// file name in several directories), every note linking to most of the others as block reference:
+/// key resolution must compare path components, not strings
+fn similar_names_library(r: &mut Rng) -> Vec<(String, String)> {
+    let keys = ["d/x", "d2/x", "d", "dx/y", "d/d/x", "x", "d/d2"];
+    let n = r.range(3, keys.len());
+    let mut chosen: Vec<&str> = keys.to_vec();
+    for i in (1..chosen.len()).rev() {
+        chosen.swap(i, r.below(i + 1));
+    }
+    chosen.truncate(n);
+    chosen
+        .iter()
+        .map(|k| {
+            let dir = Key::from_file_name(k).parent();
+            let mut text = if r.chance(3, 4) { format!("# Title of {}\n\n", k.replace('/', " ")) } else { String::from("plain start\n\n") };
+            for t in chosen.iter().chain(std::iter::once(&"gone/x")) {
+                if r.chance(2, 3) {
+                    let url = md::rel_url(t, &dir);
+                    text.push_str(&format!("[old text]({})\n\n", url));
+                }
+            }
+            (k.to_string(), text)
+        })
+        .collect()
+}
+
 pub fn run(ctx: &Ctx, model: &mut Model, rep: &mut Report) {
     rep.rule = "libraries with arbitrary cross-links (cycles, self-links, sub-directories, missing targets, notes with and without a leading heading, external urls, autolinks, wiki links bare and piped, images), both refs_extension settings; correspondence: byte-exact export of every note, model vs implementation; oracle: every link occurrence before/after export (and LSP formatting): kind kept, destination kept (block references: same resolved key; inline: same url modulo the extension; extension exactly once), text = title of the resolved target when it starts with a heading else kept; non-trivial = ≥1 note link; distinct by text".to_string();
     let parse_lib = |v: &serde_json::Value| -> Vec<(String, String)> { v.as_array().map(|a| a.iter().map(|p| (p[0].as_str().unwrap().to_string(), p[1].as_str().unwrap().to_string())).collect()).unwrap_or_default() };
@@ -129,11 +156,20 @@ pub fn run(ctx: &Ctx, model: &mut Model, rep: &mut Report) {
             None => rep.resolved_findings.push(json!({"id": f.id, "what": f.what})),
         }
     }
+    // corpus: the witnesses of repaired findings run first and must pass
+    for f in known::load(ctx, "C06").into_iter().filter(|f| f.status == "fixed") {
+        let lib = parse_lib(&f.witness["library"]);
+        rep.evaluations += 1;
+        rep.count("corpus_fixed_witnesses");
+        if let Some((what, _)) = check_library(&lib, f.witness["ext"].as_str().unwrap_or(""), false) {
+            rep.fail(json!({"kind": "links", "library": lib, "ext": f.witness["ext"], "what": format!("repaired finding {} is back: {}", f.id, what)}));
+        }
+    }
     let n = if ctx.thorough { 5000 } else { 400 };
     for i in 0..n {
         let mut r = Rng::for_case(ctx.seed ^ 0xC06, i as u64);
         let wild = i % 8 == 7;
-        let lib = c05::gen_library(&mut r, wild);
+        let lib = if i % 10 == 3 { similar_names_library(&mut r) } else { c05::gen_library(&mut r, wild) };
         let ext = if i % 2 == 0 { "" } else { ".md" };
         let text = format!("{:?}{}", lib, ext);
         rep.case(&text, text.contains("]("));
